@@ -211,10 +211,12 @@ type e3Run struct {
 	hashSeen map[string]bool
 
 	// directed attack state
-	atkVictim int
-	atkH      uint64
-	atkSince  int
-	atkSent   map[string]bool
+	atkVictim            int
+	atkForged, atkSecond tmconsensus.ProposedHeader
+	atkOthers            []int
+	atkH                 uint64
+	atkSince             int
+	atkSent              map[string]bool
 	// atkIsolate: also hold the victim's prevotes and show the Byzantine prevotes for the block to
 	// the victim only (nil to the others), so that only the victim sees a polka
 	atkIsolate bool
@@ -626,7 +628,7 @@ func (run *e3Run) deliverable(it *e3Item) bool {
 	if run.lagHeld && it.dst == run.cfg.LagNode {
 		return false
 	}
-	if run.cfg.Attack && (run.cfg.AttackKind == 3 || run.cfg.AttackKind == 4) {
+	if run.cfg.Attack && (run.cfg.AttackKind == 3 || run.cfg.AttackKind == 4 || run.cfg.AttackKind == 5) {
 		return true
 	}
 	if run.cfg.Attack && run.cfg.AttackKind == 2 {
@@ -1748,6 +1750,148 @@ func (run *e3Run) inflatedSetStep(step int) {
 	}
 }
 
+// forgedListStep drives attack kind 5. Stage 0: when a Byzantine validator is the proposer of
+// the round it equivocates: one victim is shown a first, honest-looking block, and then a copy
+// of a second block in which only the lists of the next validator set are altered (the
+// Byzantine validators a thousand times as heavy; PubKeyHash, VotePowerHash, block hash and
+// signature are those of the unaltered block, which everybody else gets). The Byzantine
+// validators vote for the second block; it is an acceptable block, so the other correct nodes
+// may well decide it. A correct node refuses the altered copy (its lists do not hash to what
+// the block hash covers) whatever it has seen before, and takes the block from its peers.
+// Stages 1 and 2 as for kind 3: only if all correct nodes finalized that block do the
+// Byzantine validators, at the next height, certify one block towards the victim and another
+// towards the rest.
+func (run *e3Run) forgedListStep(step int) {
+	byz := run.w.byzList()
+	correct := run.liveCorrect()
+	if len(byz) == 0 || len(correct) < 2 {
+		return
+	}
+	if run.atkSent == nil {
+		run.atkSent = map[string]bool{}
+	}
+	mkVotes := func(h uint64, r uint32, x string, dst []int) {
+		pv, pkh := run.w.byzVote(false, h, r, map[string][]int{x: byz})
+		pc, _ := run.w.byzVote(true, h, r, map[string][]int{x: byz})
+		run.inject(e3Msg{kind: e3KindPrevote, pv: tmconsensus.PrevoteSparseProof{Height: h, Round: r, PubKeyHash: pkh, Proofs: pv}}, dst)
+		run.inject(e3Msg{kind: e3KindPrecommit, pc: tmconsensus.PrecommitSparseProof{Height: h, Round: r, PubKeyHash: pkh, Proofs: pc}}, dst)
+	}
+	var all []int
+	for _, n := range correct {
+		all = append(all, n.idx)
+	}
+	switch run.atkStage {
+	case 0:
+		h := run.netH
+		if h == 0 {
+			h = 1
+		}
+		r := run.netR[h]
+		p := run.w.proposerBase(h, r)
+		key := fmt.Sprintf("%d/%d", h, r)
+		if !run.w.byz[p] || run.atkSent[key] {
+			return
+		}
+		base, ok := run.baseHeader(h)
+		if !ok || len(base.NextValidatorSet.Validators) == 0 {
+			return
+		}
+		run.atkSent[key] = true
+		first := run.w.byzProposal(base, h, r, p, 13)
+		second := run.w.byzProposal(base, h, r, p, 14)
+		forged := second
+		forged.Header = e3CloneHeader(second.Header)
+		vals := forged.Header.NextValidatorSet.Validators
+		altered := false
+		for i := range vals {
+			for _, b := range byz {
+				if vals[i].PubKey.Equal(run.w.pv[b].Val.PubKey) && vals[i].Power < 1<<50 {
+					vals[i].Power *= 1000
+					altered = true
+				}
+			}
+		}
+		if !altered {
+			return
+		}
+		victim := all[run.rng.IntN(len(all))]
+		var others []int
+		for _, i := range all {
+			if i != victim {
+				others = append(others, i)
+			}
+		}
+		run.atkVictim = victim
+		run.observe(&e3Msg{kind: e3KindPH, ph: first})
+		run.observe(&e3Msg{kind: e3KindPH, ph: second})
+		run.inject(e3Msg{kind: e3KindPH, ph: first}, []int{victim})
+		run.atkForged, run.atkSecond, run.atkOthers = forged, second, others
+		run.atkH, run.atkRound, run.atkXHash, run.atkStageSince = h, r, string(second.Header.Hash), step
+		run.atkStage = 10
+		run.count("byzantine.attack.forged-next-lists.proposed", 1)
+		run.logf("forged-list attack: %d/%d proposer v%d shows n%d block %x and then a copy of %x with altered next-validator lists", h, r, p, victim, short(string(first.Header.Hash)), short(run.atkXHash))
+	case 10:
+		// a little later (the victim has handled the first block by then): the altered copy to
+		// the victim, the unaltered block to the others, the Byzantine votes to everybody
+		if step-run.atkStageSince < 6 {
+			return
+		}
+		run.inject(e3Msg{kind: e3KindPH, ph: run.atkForged}, []int{run.atkVictim})
+		run.inject(e3Msg{kind: e3KindPH, ph: run.atkSecond}, run.atkOthers)
+		mkVotes(run.atkH, run.atkRound, run.atkXHash, all)
+		run.atkStage, run.atkStageSince = 1, step
+	case 1:
+		run.mu.Lock()
+		taken, other := 0, 0
+		for _, f := range run.fin {
+			if f.H == run.atkH {
+				if f.Hash == fmt.Sprintf("%x", run.atkXHash) {
+					taken++
+				} else {
+					other++
+				}
+			}
+		}
+		run.mu.Unlock()
+		if other > 0 || step-run.atkStageSince > 1500 {
+			run.atkStage = 0
+			return
+		}
+		if taken < len(correct) {
+			return
+		}
+		run.count("byzantine.attack.forged-next-lists.block-was-finalized", 1)
+		run.atkStage, run.atkStageSince = 2, step
+	case 2:
+		h := run.atkH + 1
+		base, ok := run.baseHeader(h)
+		if !ok {
+			if step-run.atkStageSince > 1500 {
+				run.atkStage = 3
+			}
+			return
+		}
+		r := run.netR[h]
+		victim := run.atkVictim
+		var others []int
+		for _, i := range all {
+			if i != victim {
+				others = append(others, i)
+			}
+		}
+		phA := run.w.byzProposal(base, h, r, byz[0], 15)
+		phB := run.w.byzProposal(base, h, r, byz[0], 16)
+		run.observe(&e3Msg{kind: e3KindPH, ph: phA})
+		run.observe(&e3Msg{kind: e3KindPH, ph: phB})
+		run.inject(e3Msg{kind: e3KindPH, ph: phA}, []int{victim})
+		mkVotes(h, r, string(phA.Header.Hash), []int{victim})
+		run.inject(e3Msg{kind: e3KindPH, ph: phB}, others)
+		mkVotes(h, r, string(phB.Header.Hash), others)
+		run.count("byzantine.attack.forged-next-lists.split-certified", 1)
+		run.atkStage = 3
+	}
+}
+
 // hostileCatchupStep drives attack kind 4: a catch-up source without any voting power. Once
 // per height, as soon as a header of that height is known, one correct node is offered, on
 // its replayed-header channel, a header for the height it is voting on whose validator list
@@ -1859,6 +2003,10 @@ func (run *e3Run) attackStep(step int) {
 	}
 	if run.cfg.AttackKind == 4 {
 		run.hostileCatchupStep(step)
+		return
+	}
+	if run.cfg.AttackKind == 5 {
+		run.forgedListStep(step)
 		return
 	}
 	byz := run.w.byzList()
